@@ -474,10 +474,14 @@ class Samples(BaseSamples):
         self.evidence_error = self.xp.sqrt(
             self.xp.sum((self.weights - self.evidence) ** 2) / (n * (n - 1))
         )
-        self.log_evidence_error = self.xp.abs(
-            self.evidence_error / self.evidence
-        )
+        # Relative error computed from max-shifted weights so it stays finite
+        # when exp(log_w) over/underflows
         log_w = self.log_w - self.xp.max(self.log_w)
+        scaled_w = self.xp.exp(log_w)
+        rel_w = scaled_w / self.xp.mean(scaled_w)
+        self.log_evidence_error = self.xp.sqrt(
+            self.xp.sum((rel_w - 1.0) ** 2) / (n * (n - 1))
+        )
         self.effective_sample_size = self.xp.exp(
             asarray(logsumexp(log_w) * 2 - logsumexp(log_w * 2), self.xp)
         )
